@@ -625,7 +625,16 @@ def build(repo, trace):
         trace.fire('R-pow', n3)
         f_wn = f_wn.replace('vec![]', 'Vec::new()')
         f_wn = sub_once(f_wn, ') -> Self {', ") -> Worker<'a, F> {", 'Worker::new')
-        f_render += '\nimpl Scratch {\n' + f_sn + '\n}\n\n' + "impl<'a, F: Function> Worker<'a, F> {\n" + f_wn + '\n}\n'
+        i3, j3, k3 = rsx.find_fn(pix, 'render_tile', a3, b3)
+        f_rt = pix[rsx.line_start(pix, i3):k3]
+        f_rt, n3 = re.subn(r'Image::new\(\(([^()]+)\)\.into\(\)\)', r'Image::new(image_size_from(\1))', f_rt)
+        trace.fire('R-into', n3)
+        f_rt, n3 = re.subn(r'\bself\.tile_sizes\[0\]', '*self.tile_sizes.index(0)', f_rt)
+        trace.fire('R-index', n3)
+        f_rt = sub_once(f_rt, 'std::mem::take(&mut self.image)', 'take_image(&mut self.image)   // R-memtake', 'Worker::render_tile')
+        f_rt = sub_once(f_rt, ') -> Self::Output {', ') -> Image {', 'Worker::render_tile')
+        f_render += '\nimpl Scratch {\n' + f_sn + '\n}\n\n' + "impl<'a, F: Function> Worker<'a, F> {\n" + f_wn + '\n\n' + f_rt + '\n}\n'
+        trace.items.append((PIX_RS, 'Worker::render_tile (trait method of RenderWorker, as an inherent function)'))
         trace.items += [(PIX_RS, 'Scratch::new'), (PIX_RS, 'Worker::new (trait method of RenderWorker, as an inherent function: R-traitfn)')]
         trace.items += [(LIB_RS, 'trait RenderSize, impl RenderSize for pixel::RenderSize, struct Image'), (PIX_RS, 'struct RenderConfig, impl RenderSize for RenderConfig, render')]
         asm = open(os.path.join(HERE, 'static_asm.rs')).read().replace('/*@RENDERCONFIG@*/', rc + '\n' + rc_impl)
@@ -667,6 +676,21 @@ def build(repo, trace):
             let n_ = tile_sizes.0@[l_] as int; let t_ = tile_sizes.0@[0] as int;
             assert(n_ * n_ <= 16777216) by (nonlinear_arith) requires 0 <= n_ <= t_, t_ * t_ <= 16777216;
         }''')
+    if f_render and 'fn render_tile(' in f_render:
+        inj.spec('Worker::render_tile', 'r: Image', '''
+        requires old(self).tile_sizes.wf(), !fnan(old(self).z),
+            old(self).scratch.x@.len() == old(self).tile_sizes.0@[old(self).tile_sizes.0@.len() - 1] * old(self).tile_sizes.0@[old(self).tile_sizes.0@.len() - 1],
+            old(self).scratch.y@.len() == old(self).scratch.x@.len(), old(self).scratch.z@.len() == old(self).scratch.x@.len(),
+            tile.corner.x % old(self).tile_sizes.0@[0] == 0, tile.corner.y % old(self).tile_sizes.0@[0] == 0,
+            tile.corner.x + old(self).tile_sizes.0@[0] <= 16777216, tile.corner.y + old(self).tile_sizes.0@[0] <= 16777216,
+        // exactly what the stand-in of render_tiles promises per root tile
+        ensures final(shape).f() == old(shape).f(), r.data@.len() == t0(old(self)) * t0(old(self)),
+            tile_ok(old(self).pixel_perfect, old(shape).f(), r.data@, t0(old(self)), tile.corner.x as int, tile.corner.y as int, t0(old(self)), old(self).z)
+''')
+        inj.proof('Worker::render_tile', '$START', '''        proof {
+            let t_ = self.tile_sizes.0@[0] as int;
+            assert(t_ <= 16777216) by (nonlinear_arith) requires t_ >= 1, t_ * t_ <= 16777216;
+        }''')
     inj.spec('GenericImage::new', 'r: Self', '\n        requires size.w_() * size.h_() <= usize::MAX\n        ensures r.size == size, r.data@.len() == size.w_() * size.h_()\n')
     inj.spec('Tile::new', 'r: Tile<N>', '\n        ensures r.corner == corner\n')
     inj.spec('Tile::add', 'r: Point2<usize>', '\n        requires self.corner.x + pos.x <= usize::MAX, self.corner.y + pos.y <= usize::MAX\n        ensures r.x == self.corner.x + pos.x, r.y == self.corner.y + pos.y\n')
@@ -683,6 +707,7 @@ def build(repo, trace):
     if f_render and 'impl Scratch' in f_render:
         for f in ('Scratch::new', 'Worker::new'):
             obls.append(Obligation('raster::' + f, 'raster', f, props=PROPS, note='establishes the scratch sizes the tile recursion requires'))
+        obls.append(Obligation('raster::Worker::render_tile', 'raster', 'Worker::render_tile', props=PROPS, note='one root tile: fresh tile image, recursion at depth 0'))
     for f in ('GenericImage::width', 'GenericImage::height', 'GenericImage::decode_position', 'GenericImage::new'):
         obls.append(Obligation('raster::' + f.replace('GenericImage', 'Image'), 'raster', f, props=PROPS))
     for l in ('lemma_suffix_wf', 'lemma_root_off'):
